@@ -86,7 +86,9 @@ func run(c *vf.Ctx) {
 	c.Rule(fmt.Sprintf("every interleaving with <=%d deviations from the default schedule of each closed scenario; sender scenarios: window x max packet x 1-2 writers (data/stderr) x write sizes x adjust granularity x inbound/outbound open; receiver scenarios: compliant model sender x 1-2 readers x buffer sizes crossing the adjust thresholds; non-trivial = scenario with more than one execution; states = distinct end observations", bound))
 	c.Assume("package ssh is data-race free (separate free-running -race pass); one writer per stream (concurrent Write calls on the same stream are documented as unsupported)")
 	var scs []schedx.Scenario
-	W := func(ext uint32, chunks ...int) ssh.VerifC35Writer { return ssh.VerifC35Writer{Ext: ext, Chunks: chunks} }
+	W := func(ext uint32, chunks ...int) ssh.VerifC35Writer {
+		return ssh.VerifC35Writer{Ext: ext, Chunks: chunks}
+	}
 	type sp = ssh.VerifC35SendParams
 	sends := []struct {
 		name string
@@ -137,6 +139,17 @@ func run(c *vf.Ctx) {
 	for _, s := range recvs {
 		s := s
 		scs = append(scs, schedx.Scenario{Name: s.name, Bound: s.b, Body: func() any { return ssh.VerifC35Recv(s.p) }, Check: recvCheck, Outcome: recvOutcome})
+	}
+	// The peer has used the whole 2 MiB window before the application reads anything; then
+	// credit and new data race with the receiver's own accounting. Deviations are placed only
+	// after the window has been filled (the explorer's mark), which makes bound 2 affordable.
+	{
+		p := rp{Packets: rep(70, P(0, K)), Prefill: 64, Readers: []ssh.VerifC35Reader{{Ext: 0, Buf: 1 << 20}}}
+		scs = append(scs, schedx.Scenario{Name: "recv window exhausted, then credit and data race (from mark)", Bound: bound, FromMark: true,
+			Body: func() any { return ssh.VerifC35Recv(p) }, Check: recvCheck, Outcome: recvOutcome})
+		p2 := rp{Packets: append(rep(64, P(1, K)), P(0, 5), P(1, K), P(1, K)), Prefill: 64, Readers: []ssh.VerifC35Reader{{Ext: 1, Buf: 3 * K}, {Ext: 0, Buf: 8}}}
+		scs = append(scs, schedx.Scenario{Name: "recv window exhausted by stderr, two readers (from mark)", Bound: bound, FromMark: true,
+			Body: func() any { return ssh.VerifC35Recv(p2) }, Check: recvCheck, Outcome: recvOutcome})
 	}
 	schedx.Explore(c, scs)
 }
